@@ -111,6 +111,8 @@ PixCases == {<<x>> : x \in PixVars} \cup {<<ElC, x>> : x \in PixVars}
               \cup {<<SQ(TagIcon, m, <<It(im, <<ElC, x>>)>>)>> : m \in Modes, im \in Modes, x \in PixSmall}
               \cup {<<SQ(TagIcon, m, <<It(im, <<x>>), It(im2, <<ElC>>)>>), x>> :
                        m \in Modes, im \in Modes, im2 \in Modes, x \in PixSmall}
+              \cup {<<SQ(TagIcon, m, <<It(im, <<x>>), It(im2, <<SQ(TagB, m2, <<It(m2, <<ElC>>)>>), ElC>>)>>)>> :
+                       m \in Modes, im \in Modes, im2 \in Modes, m2 \in Modes, x \in PixSmall}
 
 ---------------------------------------------------------------------------
 (* typed in-memory dates and times: every precision shape (PS35!TypedText gives  *)
